@@ -60,6 +60,11 @@ class V:
             return None
         return Result(self, args)
 
+    def __bool__(self):
+        # some registered values are falsy objects (0, '', empty containers
+        # are legitimate components): nothing may depend on truthiness
+        return self.vid % 3 != 0
+
     def __eq__(self, other):
         return isinstance(other, V) and other.eq == self.eq
 
@@ -186,7 +191,8 @@ class World:
                                                   for m in act['nb'])
         elif op == 'lookup':
             self.q_lookup(act['g'], act['req'], act['prov'], act['name'],
-                          act['adm'], ctx, primary=True)
+                          act['adm'], ctx, primary=True,
+                          variants=[act['via']] if act.get('via') else None)
         elif op == 'lookupAll':
             self.q_lookupall(act['g'], act['req'], act['prov'], act['adm'],
                              ctx)
@@ -250,7 +256,7 @@ class World:
                  variants=None):
         global evaluations
         vs = variants or self.lookup_variants(req)
-        if primary:
+        if primary and not variants:
             vs = [rnd.choice(vs)]
         for via in vs:
             evaluations += 1
